@@ -100,12 +100,31 @@ Definition qm_decode (key : Z) (q : qdec) : option (bool * qdec) :=
     Some (d =? 1, {| qa := a2; qc := c2; qct := ct2; qin := i2; qst := st_set (qst q) key e' |}).
 
 (* ============================================================ D.1 encoder === *)
-Record qenc := { ea : Z; ec : Z; en : Z; est : stats }.   (* ec unbounded; en = number of shifts *)
-Definition qm_init_enc : qenc := {| ea := 65536; ec := 0; en := 0; est := PositiveMap.empty (Z * Z) |}.
+(* registers A, C (0000 cbbb bbbb bsss xxxx xxxx xxxx xxxx), CT; B = last byte written (may
+   still receive a carry), ST = number of stacked X'FF' bytes; output kept in reverse, UNSTUFFED
+   (the X'00' after X'FF' is added by `stuff` when the segment is emitted) *)
+Record qenc := { ea : Z; ec : Z; ect : Z; eb : option Z; estk : nat; eout : list Z; est : stats }.
+Definition qm_init_enc : qenc :=
+  {| ea := 65536; ec := 0; ect := 11; eb := None; estk := O; eout := []; est := PositiveMap.empty (Z * Z) |}.
 
-Fixpoint renorm_e (fuel : nat) (a c n : Z) : Z * Z * Z :=
-  if a >=? 32768 then (a, c, n) else
-  match fuel with O => (a, c, n) | S f => renorm_e f (a * 2) (c * 2) (n + 1) end.
+(* Byte_out (Figure D.9) with Output_stacked_zeros / Output_stacked_XFFs *)
+Definition byte_out (c : Z) (b : option Z) (stk : nat) (out : list Z) : Z * option Z * nat * list Z :=
+  let t := c / 524288 in
+  if t >? 255 then
+    (c mod 524288, Some (t mod 256), O, repeat 0 stk ++ match b with Some v => (v + 1) :: out | None => out end)
+  else if t =? 255 then (c mod 524288, b, S stk, out)
+  else (c mod 524288, Some t, O, repeat 255 stk ++ match b with Some v => v :: out | None => out end).
+
+Fixpoint renorm_e (fuel : nat) (a c ct : Z) (b : option Z) (stk : nat) (out : list Z)
+  : Z * Z * Z * option Z * nat * list Z :=
+  match fuel with
+  | O => (a, c, ct, b, stk, out)
+  | S f =>
+    let a1 := a * 2 in let c1 := c * 2 in let ct1 := ct - 1 in
+    let '(c2, b2, stk2, out2, ct2) :=
+      if ct1 =? 0 then (let '(c', b', s', o') := byte_out c1 b stk out in (c', b', s', o', 8)) else (c1, b, stk, out, ct1) in
+    if a1 >=? 32768 then (a1, c2, ct2, b2, stk2, out2) else renorm_e f a1 c2 ct2 b2 stk2 out2
+  end.
 
 Definition qm_encode (q : qenc) (kd : Z * bool) : qenc :=
   let '(key, d) := kd in
@@ -117,31 +136,27 @@ Definition qm_encode (q : qenc) (kd : Z * bool) : qenc :=
     (* Code_MPS *)
     if a1 <? 32768 then
       let '(a2, c2) := if a1 <? qe then (qe, ec q + a1) else (a1, ec q) in
-      let '(a3, c3, n3) := renorm_e 16 a2 c2 (en q) in
-      {| ea := a3; ec := c3; en := n3; est := st_set (est q) key (est_mps e) |}
-    else {| ea := a1; ec := ec q; en := en q; est := est q |}
+      let '(a3, c3, ct3, b3, s3, o3) := renorm_e 16 a2 c2 (ect q) (eb q) (estk q) (eout q) in
+      {| ea := a3; ec := c3; ect := ct3; eb := b3; estk := s3; eout := o3; est := st_set (est q) key (est_mps e) |}
+    else {| ea := a1; ec := ec q; ect := ect q; eb := eb q; estk := estk q; eout := eout q; est := est q |}
   else
     (* Code_LPS *)
     let '(a2, c2) := if a1 <? qe then (a1, ec q) else (qe, ec q + a1) in
-    let '(a3, c3, n3) := renorm_e 16 a2 c2 (en q) in
-    {| ea := a3; ec := c3; en := n3; est := st_set (est q) key (est_lps e) |}.
+    let '(a3, c3, ct3, b3, s3, o3) := renorm_e 16 a2 c2 (ect q) (eb q) (estk q) (eout q) in
+    {| ea := a3; ec := c3; ect := ct3; eb := b3; estk := s3; eout := o3; est := st_set (est q) key (est_lps e) |}.
 
-(* bytes of v, most significant first, exactly n of them *)
-Fixpoint be_bytes (n : nat) (v : Z) : list Z :=
-  match n with O => [] | S k => (v / 256 ^ Z.of_nat k) mod 256 :: be_bytes k v end.
 Fixpoint drop_zeros_rev (l : list Z) : list Z :=
   match l with 0 :: t => drop_zeros_rev t | _ => l end.
 
-(* Flush: Clear_final_bits, shift out (C <<= CT, Byte_out, C <<= 8, Byte_out), Discard_final_zeros.
-   The first byte leaves the register after 11 shifts, then one every 8. *)
+(* Flush (Figure D.15): Clear_final_bits, C <<= CT, Byte_out, C <<= 8, Byte_out, then the byte
+   still held in B and any stacked X'FF', Discard_final_zeros *)
 Definition qm_flush (q : qenc) : list Z :=
   let t0 := ((ec q + ea q - 1) / 65536) * 65536 in
   let t := if t0 <? ec q then t0 + 32768 else t0 in
-  let n1 := if en q <? 3 then 11 else en q + (8 - (en q - 3) mod 8) in
-  let n2 := n1 + 8 in
-  let nb := (n2 - 11) / 8 + 1 in
-  let v := (t * 2 ^ (n2 - en q)) / 524288 in
-  rev (drop_zeros_rev (rev (be_bytes (Z.to_nat nb) v))).
+  let '(c1, b1, s1, o1) := byte_out (t * 2 ^ ect q) (eb q) (estk q) (eout q) in
+  let '(c2, b2, s2, o2) := byte_out (c1 * 256) b1 s1 o1 in
+  let o3 := repeat 255 s2 ++ match b2 with Some v => v :: o2 | None => o2 end in
+  rev (drop_zeros_rev o3).
 
 Definition qm_encode_all (ds : list (Z * bool)) : list Z := qm_flush (fold_left qm_encode ds qm_init_enc).
 
